@@ -487,7 +487,7 @@ deriving Repr, DecidableEq
 /-- view mutators (`__setattr__` dispatches `type` / `token` / `parameters` to the property
 setters and every other name to `__setitem__`) -/
 def step (c : St) : Op → Out St (Option (Option Str))
-  | .setType s => ⟨{ c with type := s }, true, .ok none⟩
+  | .setType s => ⟨{ c with type := lower s }, true, .ok none⟩   -- as repaired by 78ff821
   | .setToken t => ⟨{ c with token := t }, true, .ok none⟩
   | .setParams d => ⟨{ c with params := d }, true, .ok none⟩
   | .setitem k v =>
